@@ -1,22 +1,41 @@
 #!/usr/bin/env python3
 """Development helper: copy a confirmed seeded change into /verif/seeded/<id>/ with its meta.json.
-usage: seedkeep.py <worktree> <A|B> <seed-id> <property> <caught-by (comma list or 'none')> <needs...>"""
-import json, os, shutil, sys
-wt, v, sid, prop, caught = sys.argv[1:6]
-needs = ' '.join(sys.argv[6:])
+usage: seedkeep.py <worktree> <A|B> <seed-id> <property> <caught-by (comma list or 'none')> <also-ran (comma list or 'none')> [note...]
+The description and the 'needs to manifest' text are taken from the author's notes.md."""
+import json, os, re, shutil, sys
+wt, v, sid, prop, caught, also = sys.argv[1:7]
+note = ' '.join(sys.argv[7:])
 src = os.path.join(wt, 'SEEDED', v)
 dst = os.path.join('/verif/seeded', sid)
 os.makedirs(dst, exist_ok=True)
-shutil.copy(os.path.join(src, 'patch.diff'), os.path.join(dst, 'patch.diff'))
-shutil.copy(os.path.join(src, 'demo.rs'), os.path.join(dst, 'demo.rs'))
-if os.path.exists(os.path.join(src, 'notes.md')):
-    shutil.copy(os.path.join(src, 'notes.md'), os.path.join(dst, 'notes.md'))
+for f in ('patch.diff', 'demo.rs', 'notes.md'):
+    if os.path.exists(os.path.join(src, f)):
+        shutil.copy(os.path.join(src, f), os.path.join(dst, f))
+notes = open(os.path.join(src, 'notes.md')).read().splitlines() if os.path.exists(os.path.join(src, 'notes.md')) else []
+title = next((l.lstrip('# ').strip() for l in notes if l.strip()), '')
+needs = []
+grab = False
+for l in notes:
+    if re.search(r'need(ed|s)?( is)?( to)? (to )?manifest', l, re.I) and not grab:
+        grab = True
+        needs.append(re.sub(r'^[-*\s]*', '', l))
+        continue
+    if grab:
+        if not l.strip() or re.match(r'^\s*[-*] ', l) or re.match(r'^(Demo|Commands|Why|Verified)', l.strip()):
+            break
+        needs.append(l.strip())
+needs = ' '.join(needs)
+needs = re.sub(r'^\**\s*(what is )?need(ed|s)?( is)?( to)? (to )?manifest\**\s*[:.]?\**\s*', '', needs, flags=re.I)
+files = sorted(set(re.findall(r'^diff --git a/(\S+)', open(os.path.join(src, 'patch.diff')).read(), re.M)))
 meta = {
-    "id": sid, "property": prop, "needs_to_manifest": needs,
+    "id": sid, "property": prop, "change": title, "files": files, "needs_to_manifest": needs,
     "confirmed": {"existing_suite_passes_with_change": True, "demo_fails_with_change": True, "demo_passes_without_change": True,
-                  "how": "tools/seedverify.sh in the author's scratch worktree (cargo test --workspace --no-fail-fast --offline; demo as tests/seeded_demo_*.rs)"},
+                  "how": "tools/seedverify.sh in the author's scratch worktree: demo.rs as tests/seeded_demo_<v>.rs without and with patch.diff, then cargo test --workspace --no-fail-fast --offline with it (same outcome as the unchanged tree)"},
     "caught_by": [] if caught == 'none' else caught.split(','),
-    "ran": "tools/seedrun.py <patch> <IDs>: git -C /repo apply, ./check <ID> --tier quick, git -C /repo checkout -- .",
+    "also_ran_not_caught": [] if also == 'none' else also.split(','),
+    "ran": "tools/seedrun.py <patch> <IDs>: git -C /repo apply <patch>; ./check <ID> (quick tier, VERIF_SEED default); git -C /repo checkout -- .",
 }
+if note:
+    meta["note"] = note
 json.dump(meta, open(os.path.join(dst, 'meta.json'), 'w'), indent=1)
-print("kept", sid)
+print("kept", sid, '|', title[:80], '|', needs[:100])
